@@ -500,6 +500,7 @@ type c34Reg struct {
 	randPort bool
 	phantom  string
 	valid    bool
+	libver   uint // client library version the registration was made with
 	reg      *cj.DecoyRegistration
 }
 
@@ -518,8 +519,8 @@ type c34World struct {
 	rm       *cj.RegistrationManager
 	cm       *connManager
 	geo      *c34Geo
-	priv     [32]byte
-	pub      [32]byte
+	privs    [][32]byte // the station's private keys, in the order the prefix transport tries them
+	pub      [32]byte   // public key the clients of this world are built for: that of the LAST station key
 	regs     []*c34Reg
 	byPtr    map[*cj.DecoyRegistration]int
 	cur      *c34Log // the log of the connection being handled (one at a time per world)
@@ -527,6 +528,8 @@ type c34World struct {
 	libver   uint
 	tids     []int
 	nSecrets int
+	nPairs   int // populate(): clients 0..2*nPairs-1 come in pairs (many-phantom, alone)
+	dead     string // set when a handler of this world hung (its connection manager's state is then unusable)
 	r        *vlib.Rand
 }
 
@@ -562,16 +565,31 @@ func newC34World(stream string, covertIP string) (*c34World, error) {
 			l.add(c34Ent{kind: 'M', reg: idx})
 		}
 	})
-	copy(w.priv[:], w.r.Bytes(32))
-	w.priv[0] &= 248
-	w.priv[31] &= 127
-	w.priv[31] |= 64
-	pub, err := curve25519.X25519(w.priv[:], curve25519.Basepoint)
-	if err != nil {
-		return nil, err
+	// Station keys: worlds with an odd number (and the real-socket world) run with TWO station keys and
+	// build their clients for the second one — the prefix transport must try every key in turn.
+	nKeys := 1
+	if strings.HasSuffix(stream, "real") {
+		nKeys = 2
+	} else if i := strings.LastIndexByte(stream, '/'); i >= 0 {
+		if n, err := strconv.Atoi(stream[i+1:]); err == nil && n%2 == 1 {
+			nKeys = 2
+		}
 	}
-	copy(w.pub[:], pub)
-	pt, err := prefix.Default([][32]byte{w.priv})
+	for k := 0; k < nKeys; k++ {
+		var priv [32]byte
+		copy(priv[:], w.r.Bytes(32))
+		priv[0] &= 248
+		priv[31] &= 127
+		priv[31] |= 64
+		pub, err := curve25519.X25519(priv[:], curve25519.Basepoint)
+		if err != nil {
+			return nil, err
+		}
+		w.privs = append(w.privs, priv)
+		copy(w.pub[:], pub)
+	}
+	var err error
+	pt, err := prefix.Default(w.privs)
 	if err != nil {
 		return nil, err
 	}
@@ -629,8 +647,14 @@ func (w *c34World) clientParams(r *c34Reg) (proto.Message, error) {
 // addReg creates a real registration (NewRegistration, as the ingest path does), pins it to the
 // phantom, and tracks (valid=false) or registers (valid=true) it.
 func (w *c34World) addReg(tt pb.TransportType, prefixID, flush int32, randPort bool, phantom string, valid bool, secret []byte) (*c34Reg, error) {
-	r := &c34Reg{idx: len(w.regs), secret: secret, tt: tt, prefixID: prefixID, flush: flush, randPort: randPort, phantom: phantom, valid: valid}
-	keys, err := core.GenSharedKeys(w.libver, secret, tt)
+	return w.addRegV(w.libver, tt, prefixID, flush, randPort, phantom, valid, secret)
+}
+
+// addRegV: the same for a client of library version libver (older clients derive the transport keys
+// differently — core.GenSharedKeys — and the station parses their parameters differently).
+func (w *c34World) addRegV(libver uint, tt pb.TransportType, prefixID, flush int32, randPort bool, phantom string, valid bool, secret []byte) (*c34Reg, error) {
+	r := &c34Reg{idx: len(w.regs), secret: secret, tt: tt, prefixID: prefixID, flush: flush, randPort: randPort, phantom: phantom, valid: valid, libver: libver}
+	keys, err := core.GenSharedKeys(libver, secret, tt)
 	if err != nil {
 		return nil, err
 	}
@@ -638,7 +662,7 @@ func (w *c34World) addReg(tt pb.TransportType, prefixID, flush int32, randPort b
 	if err != nil {
 		return nil, err
 	}
-	v := uint32(w.libver)
+	v := uint32(libver)
 	covert := "127.0.0.1:9"
 	if w.covert != nil {
 		covert = w.covert.addr
@@ -722,6 +746,21 @@ func (w *c34World) populate() ([]*c34Reg, error) {
 		// clients on an IPv6 phantom (the handler keeps separate per-family statistics and code paths)
 		clients = append(clients, r6)
 	}
+	w.nPairs = (len(clients) - 3) / 2
+	// clients of older library versions (the station accepts them): min and obfs4 from the versions before
+	// the HKDF phantom selection (0), before port randomisation (2) and before the shared-keys refactoring
+	// (3); prefix needs at least version 3. Among the other registrations of the many-phantom.
+	for _, e := range []struct {
+		v  uint
+		tt pb.TransportType
+	}{{0, pb.TransportType_Min}, {2, pb.TransportType_Min}, {3, pb.TransportType_Min},
+		{0, pb.TransportType_Obfs4}, {2, pb.TransportType_Obfs4}, {3, pb.TransportType_Obfs4}, {3, pb.TransportType_Prefix}} {
+		rv, err := w.addRegV(e.v, e.tt, int32(prefix.Min), 0, false, c34PhMany, true, w.newSecret())
+		if err != nil {
+			return nil, fmt.Errorf("client library version %d, %v: %w", e.v, e.tt, err)
+		}
+		clients = append(clients, rv)
+	}
 	return clients, nil
 }
 
@@ -772,7 +811,7 @@ func (w *c34World) clientTransport(r *c34Reg, prefixOverride int32) (c34ClientTr
 		if err := ct.Prepare(context.Background(), nil); err != nil {
 			return nil, err
 		}
-		keys, err := core.GenSharedKeys(w.libver, r.secret, r.tt)
+		keys, err := core.GenSharedKeys(r.libver, r.secret, r.tt)
 		if err != nil {
 			return nil, err
 		}
